@@ -57,7 +57,12 @@ partial def loop (h : IO.FS.Stream) (ctx : Driver.Ctx) (c : Counts) (maxPrint : 
         loop h ctx { c with unknown := c.unknown + 1 } maxPrint
       | some r =>
         let mut c := { c with ops := c.ops + 1 }
-        let short := if line.length > 4000 then (line.take 4000).toString ++ "…" else line
+        -- long operations are abbreviated in the middle; the observed result is always printed in full
+        let short :=
+          if line.length > 6000 then
+            let opPart := (line.take (line.length - observed.length)).toString
+            (opPart.take 3000).toString ++ "…" ++ (opPart.drop (opPart.length - 200)).toString ++ observed
+          else line
         if r.model != observed && r.model != "ub" then   -- undefined behaviour permits any observation
           c := { c with modelMM := c.modelMM + 1 }
           if c.modelMM ≤ maxPrint then IO.println s!"MM model {c.lines} {r.model} | {short}"
